@@ -1,123 +1,147 @@
 import PsyVerif.Model.Frontend
 import PsyVerif.Lemmas.MiniFSem
-/-! # C01: the WHERE lowering versus the standard semantics
+/-! # C01: the WHERE lowering versus the standard semantics (rank 1 and rank 2)
 
-`rowClauses k` is the WHERE construct interpreted at the single position `k`, statements
-interleaved (what one iteration of the generated loop does).  Lemma L: the generated loop is
-the fold of `rowClauses` over the positions.  Lemma S: under `whereElemental` the standard
-semantics (masks once, statement by statement over the whole mask) is the same store. -/
+`rowClauses c` is the WHERE construct interpreted at the single cell `c`, statements
+interleaved (what one iteration of the innermost generated loop does).  Lemma L: the generated
+loop (nest) processes the cells one after the other.  Lemma S: under `whereElemental` the standard
+semantics (masks once, statement by statement over the whole mask) gives, location by location,
+the same store.  `r2` = the construct is of rank 2. -/
 namespace C01
 open MiniF
+
+variable {fuel : Nat}
 
 theorem exprVars_eq (e : Expr) : exprVars e = evars e := by
   induction e <;> simp_all [exprVars, evars]
 
-def rowAssigns (env : Env) (k : Nat) : List WAssign → Store → Store
-  | [], σ => σ
-  | w :: ws, σ => rowAssigns env k ws (σ.set (w.a, (env.get w.a).lo + k, 0) (evalA env k w.rhs σ))
+/-- the element at cell `c` of an assigned array (full-range LHS) -/
+def locOf (env : Env) (r2 : Bool) (a : Nat) (c : Cell) : Loc :=
+  (a, (env.get a).lo + c.1, if r2 then (env.get a).lo2 + c.2 else 0)
 
-def rowClauses (env : Env) (k : Nat) : WClauses → Store → Store
+def rowAssigns (env : Env) (r2 : Bool) (c : Cell) : List WAssign → Store → Store
+  | [], σ => σ
+  | w :: ws, σ => rowAssigns env r2 c ws (σ.set (locOf env r2 w.a c) (evalA env c w.rhs σ))
+
+def rowClauses (env : Env) (r2 : Bool) (c : Cell) : WClauses → Store → Store
   | .nil, σ => σ
   | .masked m body rest, σ =>
-    if evalA env k m σ ≠ 0 then rowAssigns env k body σ else rowClauses env k rest σ
-  | .final body, σ => rowAssigns env k body σ
+    if evalA env c m σ ≠ 0 then rowAssigns env r2 c body σ else rowClauses env r2 c rest σ
+  | .final body, σ => rowAssigns env r2 c body σ
 
-/-- agreement on row `k` of the assigned arrays and on everything that is neither an
-assigned array nor the loop variable -/
-structure Rel (env : Env) (A : List Nat) (wv k : Nat) (τ τ' : Store) : Prop where
-  row : ∀ a ∈ A, τ (a, (env.get a).lo + k, 0) = τ' (a, (env.get a).lo + k, 0)
-  out : ∀ x, x ∉ A → x ≠ wv → ∀ i j, τ (x, i, j) = τ' (x, i, j)
+/-- agreement on cell `c` of the assigned arrays and on everything that is neither an
+assigned array nor a loop variable -/
+structure Rel (env : Env) (A : List Nat) (wv : Nat) (r2 : Bool) (c : Cell) (τ τ' : Store) : Prop where
+  row : ∀ a ∈ A, τ (locOf env r2 a c) = τ' (locOf env r2 a c)
+  out : ∀ x, x ∉ A → x ≠ wv → x ≠ wv + 1 → ∀ i j, τ (x, i, j) = τ' (x, i, j)
 
-theorem Rel.set {env : Env} {A : List Nat} {wv k : Nat} {τ τ' : Store} (h : Rel env A wv k τ τ')
-    (l : Loc) (v : Int) : Rel env A wv k (τ.set l v) (τ'.set l v) := by
+theorem Rel.set {env : Env} {A : List Nat} {wv : Nat} {r2 : Bool} {c : Cell} {τ τ' : Store}
+    (h : Rel env A wv r2 c τ τ') (l : Loc) (v : Int) : Rel env A wv r2 c (τ.set l v) (τ'.set l v) := by
   constructor
   · intro a ha
     simp only [Store.set_apply]
     split
     · rfl
     · exact h.row a ha
-  · intro x hx hw i j
+  · intro x hx hw hw1 i j
     simp only [Store.set_apply]
     split
     · rfl
-    · exact h.out x hx hw i j
+    · exact h.out x hx hw hw1 i j
 
-theorem sumArr_congr {τ τ' : Store} (a : Nat) (lo : Int) (h : ∀ i, τ (a, i, 0) = τ' (a, i, 0)) (n : Nat) :
-    sumArr τ a lo n = sumArr τ' a lo n := by
+theorem Rel.refl (env : Env) (A : List Nat) (wv : Nat) (r2 : Bool) (c : Cell) (τ : Store) :
+    Rel env A wv r2 c τ τ :=
+  ⟨fun _ _ => rfl, fun _ _ _ _ _ _ => rfl⟩
+
+theorem redArr_congr {τ τ' : Store} (k : Red) (a : Nat) (lo : Int) (h : ∀ i, τ (a, i, 0) = τ' (a, i, 0)) (n : Nat) :
+    redArr k τ a lo n = redArr k τ' a lo n := by
   induction n with
-  | zero => rfl
-  | succ n ih => simp only [sumArr, ih, h]
+  | zero => cases k <;> simp only [redArr, h]
+  | succ n ih => simp only [redArr, ih, h]
 
-theorem evalA_congr {env : Env} {A : List Nat} {wv k : Nat} {τ τ' : Store} (e : AExpr)
-    (he : elemA env A wv e = true) (h : Rel env A wv k τ τ') : evalA env k e τ = evalA env k e τ' := by
+theorem not_mem_of_contains_false {A : List Nat} {x : Nat} (h : A.contains x = false) : x ∉ A := by
+  intro hx
+  have hc : A.contains x = true := List.contains_iff_mem.mpr hx
+  rw [h] at hc
+  cases hc
+
+theorem evalA_congr {env : Env} {A : List Nat} {wv : Nat} {r2 : Bool} {c : Cell} {τ τ' : Store} (e : AExpr)
+    (he : elemA env A wv r2 e = true) (h : Rel env A wv r2 c τ τ') : evalA env c e τ = evalA env c e τ' := by
   induction e with
   | scal e =>
     simp only [elemA, List.all_eq_true, Bool.and_eq_true, Bool.not_eq_true', bne_iff_ne, ne_eq] at he
     simp only [evalA]
-    apply eval_congr (V := fun x => x ∉ A ∧ x ≠ wv)
+    apply eval_congr (V := fun x => x ∉ A ∧ x ≠ wv ∧ x ≠ wv + 1)
     · intro x hx
       rw [← exprVars_eq] at hx
       have := he x hx
-      refine ⟨?_, this.2⟩
-      intro hxA
-      have hc : A.contains x = true := List.contains_iff_mem.mpr hxA
-      rw [this.1] at hc
-      cases hc
+      exact ⟨not_mem_of_contains_false this.1.1, this.1.2, this.2⟩
     · intro x hx i j
-      exact h.out x hx.1 hx.2 i j
+      exact h.out x hx.1 hx.2.1 hx.2.2 i j
   | sec a s =>
     simp only [elemA, Bool.and_eq_true, Bool.or_eq_true, Bool.not_eq_true', bne_iff_ne, ne_eq,
       beq_iff_eq] at he
-    obtain ⟨⟨hst, hwv⟩, hal⟩ := he
+    obtain ⟨⟨⟨⟨hr, hst⟩, hwv⟩, hwv1⟩, hal⟩ := he
     simp only [evalA, hst, Int.mul_one]
     by_cases hA : a ∈ A
     · rcases hal with hal | hal
-      · have hc : A.contains a = true := List.contains_iff_mem.mpr hA
-        rw [hal] at hc
-        cases hc
+      · exact absurd hA (not_mem_of_contains_false hal)
       · rw [hal]
-        exact h.row a hA
-    · exact h.out a hA hwv _ _
+        have := h.row a hA
+        simpa [locOf, hr] using this
+    · exact h.out a hA hwv hwv1 _ _
+  | sec2 a s1 s2 =>
+    simp only [elemA, Bool.and_eq_true, Bool.or_eq_true, Bool.not_eq_true', bne_iff_ne, ne_eq,
+      beq_iff_eq] at he
+    obtain ⟨⟨⟨⟨⟨hr, hst1⟩, hst2⟩, hwv⟩, hwv1⟩, hal⟩ := he
+    simp only [evalA, hst1, hst2, Int.mul_one]
+    by_cases hA : a ∈ A
+    · rcases hal with hal | hal
+      · exact absurd hA (not_mem_of_contains_false hal)
+      · rw [hal.1, hal.2]
+        have := h.row a hA
+        simpa [locOf, hr] using this
+    · exact h.out a hA hwv hwv1 _ _
   | un op e ih => simp only [evalA, ih (by simpa [elemA] using he)]
   | bin op a b iha ihb =>
     simp only [elemA, Bool.and_eq_true] at he
     simp only [evalA, iha he.1, ihb he.2]
-  | sum a =>
+  | red k a =>
     simp only [elemA, Bool.and_eq_true, Bool.not_eq_true', bne_iff_ne, ne_eq] at he
     simp only [evalA]
-    apply sumArr_congr
+    apply redArr_congr
     intro i
-    refine h.out a ?_ he.2 i 0
-    intro hA
-    have hc : A.contains a = true := List.contains_iff_mem.mpr hA
-    rw [he.1] at hc
-    cases hc
-  | sumDim a =>
+    exact h.out a (not_mem_of_contains_false he.1.1) he.1.2 he.2 i 0
+  | redDim k a =>
     simp only [elemA, Bool.and_eq_true, Bool.not_eq_true', bne_iff_ne, ne_eq] at he
     simp only [evalA]
-    apply sumArr_congr
+    apply redArr_congr
     intro i
-    refine h.out a ?_ he.2 i 0
-    intro hA
-    have hc : A.contains a = true := List.contains_iff_mem.mpr hA
-    rw [he.1] at hc
-    cases hc
+    exact h.out a (not_mem_of_contains_false he.1.1) he.1.2 he.2 i 0
 
-theorem rowAssigns_congr {env : Env} {A : List Nat} {wv k : Nat} (ws : List WAssign)
-    (he : elemAssigns env A wv ws = true) :
-    ∀ {τ τ' : Store}, Rel env A wv k τ τ' → Rel env A wv k (rowAssigns env k ws τ) (rowAssigns env k ws τ') := by
+theorem elemAssigns_cons {env : Env} {A : List Nat} {wv : Nat} {r2 : Bool} {w : WAssign} {ws : List WAssign}
+    (he : elemAssigns env A wv r2 (w :: ws) = true) :
+    lhsOk env r2 w = true ∧ elemA env A wv r2 w.rhs = true ∧ elemAssigns env A wv r2 ws = true := by
+  simp only [elemAssigns, List.all_cons, Bool.and_eq_true] at he
+  exact ⟨he.1.1, he.1.2, by simpa [elemAssigns] using he.2⟩
+
+theorem rowAssigns_congr {env : Env} {A : List Nat} {wv : Nat} {r2 : Bool} {c : Cell} (ws : List WAssign)
+    (he : elemAssigns env A wv r2 ws = true) :
+    ∀ {τ τ' : Store}, Rel env A wv r2 c τ τ' →
+      Rel env A wv r2 c (rowAssigns env r2 c ws τ) (rowAssigns env r2 c ws τ') := by
   induction ws with
   | nil => intro τ τ' h; exact h
   | cons w ws ih =>
     intro τ τ' h
-    simp only [elemAssigns, List.all_cons, Bool.and_eq_true] at he
+    obtain ⟨_, h2, h3⟩ := elemAssigns_cons he
     simp only [rowAssigns]
-    rw [evalA_congr w.rhs he.1.2 h]
-    exact ih (by simpa [elemAssigns] using he.2) (h.set _ _)
+    rw [evalA_congr w.rhs h2 h]
+    exact ih h3 (h.set _ _)
 
-theorem rowClauses_congr {env : Env} {A : List Nat} {wv k : Nat} (cl : WClauses)
-    (he : elemClauses env A wv cl = true) :
-    ∀ {τ τ' : Store}, Rel env A wv k τ τ' → Rel env A wv k (rowClauses env k cl τ) (rowClauses env k cl τ') := by
+theorem rowClauses_congr {env : Env} {A : List Nat} {wv : Nat} {r2 : Bool} {c : Cell} (cl : WClauses)
+    (he : elemClauses env A wv r2 cl = true) :
+    ∀ {τ τ' : Store}, Rel env A wv r2 c τ τ' →
+      Rel env A wv r2 c (rowClauses env r2 c cl τ) (rowClauses env r2 c cl τ') := by
   induction cl with
   | nil => intro τ τ' h; exact h
   | masked m body rest ih =>
@@ -133,46 +157,36 @@ theorem rowClauses_congr {env : Env} {A : List Nat} {wv k : Nat} (cl : WClauses)
 
 /-! ## frame -/
 
-theorem rowAssigns_frame (env : Env) (A : List Nat) (k : Nat) (ws : List WAssign)
-    (hA : ∀ w ∈ ws, w.a ∈ A) (x : Nat) (i j : Int)
-    (hl : ¬ (x ∈ A ∧ i = (env.get x).lo + k ∧ j = 0)) :
-    ∀ τ, rowAssigns env k ws τ (x, i, j) = τ (x, i, j) := by
+theorem rowAssigns_frame (env : Env) (A : List Nat) (r2 : Bool) (c : Cell) (ws : List WAssign)
+    (hA : ∀ w ∈ ws, w.a ∈ A) (l : Loc) (hl : ∀ a ∈ A, l ≠ locOf env r2 a c) :
+    ∀ τ, rowAssigns env r2 c ws τ l = τ l := by
   induction ws with
   | nil => intro τ; rfl
   | cons w ws ih =>
     intro τ
     simp only [rowAssigns]
     rw [ih (fun w' hw' => hA w' (List.mem_cons_of_mem _ hw')), Store.set_apply, if_neg]
-    intro heq
-    simp only [Prod.mk.injEq] at heq
-    apply hl
-    refine ⟨?_, ?_, heq.2.2⟩
-    · rw [heq.1]; exact hA w (List.mem_cons_self ..)
-    · rw [heq.1]; exact heq.2.1
+    exact hl w.a (hA w (List.mem_cons_self ..))
 
-theorem assigned_masked (m : AExpr) (body : List WAssign) (rest : WClauses) :
-    assignedArrs (.masked m body rest) = body.map (·.a) ++ assignedArrs rest := rfl
-
-theorem rowClauses_frame (env : Env) (A : List Nat) (k : Nat) (cl : WClauses)
-    (hA : ∀ a ∈ assignedArrs cl, a ∈ A) (x : Nat) (i j : Int)
-    (hl : ¬ (x ∈ A ∧ i = (env.get x).lo + k ∧ j = 0)) :
-    ∀ τ, rowClauses env k cl τ (x, i, j) = τ (x, i, j) := by
+theorem rowClauses_frame (env : Env) (A : List Nat) (r2 : Bool) (c : Cell) (cl : WClauses)
+    (hA : ∀ a ∈ assignedArrs cl, a ∈ A) (l : Loc) (hl : ∀ a ∈ A, l ≠ locOf env r2 a c) :
+    ∀ τ, rowClauses env r2 c cl τ l = τ l := by
   induction cl with
   | nil => intro τ; rfl
   | masked m body rest ih =>
     intro τ
     simp only [rowClauses]
     split
-    · exact rowAssigns_frame env A k body
+    · exact rowAssigns_frame env A r2 c body
         (fun w hw => hA _ (by simp only [assignedArrs, List.mem_append, List.mem_map]; exact Or.inl ⟨w, hw, rfl⟩))
-        x i j hl τ
+        l hl τ
     · exact ih (fun a ha => hA a (by simp only [assignedArrs, List.mem_append]; exact Or.inr ha)) τ
   | final body =>
     intro τ
-    exact rowAssigns_frame env A k body
-      (fun w hw => hA _ (by simp only [assignedArrs, List.mem_map]; exact ⟨w, hw, rfl⟩)) x i j hl τ
+    exact rowAssigns_frame env A r2 c body
+      (fun w hw => hA _ (by simp only [assignedArrs, List.mem_map]; exact ⟨w, hw, rfl⟩)) l hl τ
 
-/-! ## Lemma L: the generated loop -/
+/-! ## Lemma L: one iteration of the innermost generated loop -/
 
 theorem litE_eval' (n : Int) (σ : Store) : eval (litE n) σ = n := by
   unfold litE
@@ -180,10 +194,8 @@ theorem litE_eval' (n : Int) (σ : Store) : eval (litE n) σ = n := by
   · simp [eval, evalUn]
   · rfl
 
-theorem isFull_start {env : Env} {a : Nat} {s : Sec} (h : isFull env a s = true) :
-    secStart env a s = (env.get a).lo := by
-  unfold isFull at h
-  unfold secStart
+theorem isFullD_start {t : Bool} {lo hi : Int} {s : Sec} (h : isFullD t lo hi s = true) : s.lo.getD lo = lo := by
+  unfold isFullD at h
   cases hl : s.lo with
   | none => rfl
   | some l =>
@@ -191,10 +203,8 @@ theorem isFull_start {env : Env} {a : Nat} {s : Sec} (h : isFull env a s = true)
     simp only [Option.getD_some]
     exact h.1.1.2
 
-theorem isFull_stop {env : Env} {a : Nat} {s : Sec} (h : isFull env a s = true) :
-    secStop env a s = (env.get a).hi := by
-  unfold isFull at h
-  unfold secStop
+theorem isFullD_stop {t : Bool} {lo hi : Int} {s : Sec} (h : isFullD t lo hi s = true) : s.hi.getD hi = hi := by
+  unfold isFullD at h
   cases hl : s.hi with
   | none => rfl
   | some l =>
@@ -202,8 +212,8 @@ theorem isFull_stop {env : Env} {a : Nat} {s : Sec} (h : isFull env a s = true) 
     simp only [Option.getD_some]
     exact h.1.2.2
 
-theorem isFull_stride {env : Env} {a : Nat} {s : Sec} (h : isFull env a s = true) : secStride s = 1 := by
-  unfold isFull at h
+theorem isFullD_stride {t : Bool} {lo hi : Int} {s : Sec} (h : isFullD t lo hi s = true) : secStride s = 1 := by
+  unfold isFullD at h
   unfold secStride
   cases hl : s.st with
   | none => rfl
@@ -212,17 +222,16 @@ theorem isFull_stride {env : Env} {a : Nat} {s : Sec} (h : isFull env a s = true
     simp only [Option.getD_some]
     exact h.2
 
-theorem idxExpr_eval (env : Env) (wv a : Nat) (s : Sec) (k : Nat) (τ : Store)
-    (hst : secStride s = 1) (hwv : τ (wv, 0, 0) = k + 1) :
-    eval (idxExpr env wv a s) τ = secStart env a s + k := by
-  unfold idxExpr
+theorem idxExprD_eval (full : Bool) (lo : Int) (wv : Nat) (s : Sec) (k : Nat) (τ : Store)
+    (hf : full = true → s.lo.getD lo = lo) (hwv : τ.get (wv, 0, 0) = (k : Int) + 1) :
+    eval (idxExprD full lo wv s) τ = s.lo.getD lo + k := by
+  unfold idxExprD
   split
-  · rename_i hf
-    rw [isFull_start hf]
+  · rename_i hfull
+    rw [hf hfull]
     simp only [offIdx, eval, evalBin, hwv]
     omega
-  · unfold secStart
-    cases hl : s.lo with
+  · cases hl : s.lo with
     | none =>
       simp only [offIdx, eval, evalBin, hwv, Option.getD_none]
       omega
@@ -235,113 +244,561 @@ theorem idxExpr_eval (env : Env) (wv a : Nat) (s : Sec) (k : Nat) (τ : Store)
       · simp only [offIdx, eval, evalBin, hwv, litE_eval']
         omega
 
-theorem sumExpr_eval (a : Nat) (lo : Int) (n : Nat) (τ : Store) :
-    eval (sumExpr a lo n) τ = sumArr τ a lo n := by
-  induction n with
-  | zero => rfl
-  | succ n ih => simp only [sumExpr, eval, evalBin, ih, sumArr]
+theorem idxExpr_eval (env : Env) (wv a : Nat) (s : Sec) (k : Nat) (τ : Store)
+    (hwv : τ.get (wv, 0, 0) = (k : Int) + 1) : eval (idxExpr env wv a s) τ = secStart env a s + k :=
+  idxExprD_eval _ _ wv s k τ (fun h => isFullD_start h) hwv
 
-theorem lowerA_eval {env : Env} {A : List Nat} {wv : Nat} (k : Nat) (τ : Store) (e : AExpr)
-    (he : elemA env A wv e = true) (hwv : τ (wv, 0, 0) = k + 1) :
-    eval (lowerA env wv e) τ = evalA env k e τ := by
+theorem idxExpr2_eval (env : Env) (wv a : Nat) (s : Sec) (k : Nat) (τ : Store)
+    (hwv : τ.get (wv, 0, 0) = (k : Int) + 1) : eval (idxExpr2 env wv a s) τ = secStart2 env a s + k :=
+  idxExprD_eval _ _ wv s k τ (fun h => isFullD_start h) hwv
+
+theorem redExpr_eval (k : Red) (a : Nat) (lo : Int) (n : Nat) (τ : Store) :
+    eval (redExpr k a lo n) τ = redArr k τ a lo n := by
+  induction n with
+  | zero => cases k <;> rfl
+  | succ n ih => simp only [redExpr, eval, ih, redArr]
+
+theorem lowerA_eval {env : Env} {A : List Nat} {wv : Nat} {r2 : Bool} (c : Cell) (τ : Store) (e : AExpr)
+    (he : elemA env A wv r2 e = true) (h1 : τ.get (wv, 0, 0) = (c.1 : Int) + 1)
+    (h2 : r2 = true → τ.get (wv + 1, 0, 0) = (c.2 : Int) + 1) :
+    eval (lowerA env wv e) τ = evalA env c e τ := by
   induction e with
   | scal e => rfl
   | sec a s =>
     simp only [elemA, Bool.and_eq_true, beq_iff_eq] at he
-    simp only [lowerA, eval, evalA, idxExpr_eval env wv a s k τ he.1.1 hwv, he.1.1, Int.mul_one]
+    simp only [lowerA, eval, evalA, idxExpr_eval env wv a s c.1 τ h1, he.1.1.1.2, Int.mul_one]
+  | sec2 a s1 s2 =>
+    simp only [elemA, Bool.and_eq_true, beq_iff_eq] at he
+    simp only [lowerA, eval, evalA, idxExpr_eval env wv a s1 c.1 τ h1,
+      idxExpr2_eval env (wv + 1) a s2 c.2 τ (h2 he.1.1.1.1.1), he.1.1.1.1.2, he.1.1.1.2, Int.mul_one]
   | un op e ih => simp only [lowerA, eval, evalA, ih (by simpa [elemA] using he)]
   | bin op a b iha ihb =>
     simp only [elemA, Bool.and_eq_true] at he
     simp only [lowerA, eval, evalA, iha he.1, ihb he.2]
-  | sum a => simp only [lowerA, evalA, sumExpr_eval]
-  | sumDim a => simp only [lowerA, evalA, sumExpr_eval]
+  | red k a => simp only [lowerA, evalA, redExpr_eval]
+  | redDim k a => simp only [lowerA, evalA, redExpr_eval]
 
 theorem run_seqs_cons (env : Env) (s : Src) (ss : List Src) (τ : Store) :
-    (run env (Src.seqs (s :: ss)) false 0 τ).2 =
-      (run env (Src.seqs ss) false 0 (run env s false 0 τ).2).2 := by
+    (run fuel env (Src.seqs (s :: ss)) false 0 τ).2 =
+      (run fuel env (Src.seqs ss) false 0 (run fuel env s false 0 τ).2).2 := by
   cases ss with
   | nil => rfl
   | cons s' ss' => rfl
 
-theorem lowerAssigns_run {env : Env} {A : List Nat} {wv : Nat} (k : Nat) (ws : List WAssign)
-    (he : elemAssigns env A wv ws = true) (hA : ∀ w ∈ ws, w.a ≠ wv) :
-    ∀ τ : Store, τ.get (wv, 0, 0) = (k : Int) + 1 →
-      (run env (lowerAssigns env wv ws) false 0 τ).2 = rowAssigns env k ws τ ∧
-      (rowAssigns env k ws τ).get (wv, 0, 0) = (k : Int) + 1 := by
+/-- one lowered assignment stores the element `locOf` of the cell -/
+theorem lhsIdx_run {env : Env} {A : List Nat} {wv : Nat} {r2 : Bool} (c : Cell) (w : WAssign) (τ : Store)
+    (hok : lhsOk env r2 w = true) (he : elemA env A wv r2 w.rhs = true)
+    (h1 : τ.get (wv, 0, 0) = (c.1 : Int) + 1) (h2 : r2 = true → τ.get (wv + 1, 0, 0) = (c.2 : Int) + 1) :
+    (run fuel env (lhsIdx env wv w) false 0 τ).2 = τ.set (locOf env r2 w.a c) (evalA env c w.rhs τ) := by
+  unfold lhsOk at hok
+  simp only [Bool.and_eq_true] at hok
+  have hs1 : secStart env w.a w.s = (env.get w.a).lo := isFullD_start hok.1
+  unfold lhsIdx locOf
+  cases hs2 : w.s2 with
+  | none =>
+    simp only [hs2, Bool.not_eq_true'] at hok
+    simp only [run, idxExpr_eval env wv w.a w.s c.1 τ h1, hs1, lowerA_eval c τ w.rhs he h1 h2, hok.2]
+    rfl
+  | some s2 =>
+    simp only [hs2, Bool.and_eq_true] at hok
+    have hs2' : secStart2 env w.a s2 = (env.get w.a).lo2 := isFullD_start hok.2.2
+    simp only [run, idxExpr_eval env wv w.a w.s c.1 τ h1, hs1, lowerA_eval c τ w.rhs he h1 h2,
+      idxExpr2_eval env (wv + 1) w.a s2 c.2 τ (h2 hok.2.1), hs2', hok.2.1]
+    rfl
+
+theorem locOf_ne_var {env : Env} {r2 : Bool} {a x : Nat} {c : Cell} (h : a ≠ x) (i j : Int) :
+    ((x, i, j) : Loc) ≠ locOf env r2 a c := by
+  intro heq
+  exact h (congrArg Prod.fst heq).symm
+
+theorem lowerAssigns_run {env : Env} {A : List Nat} {wv : Nat} {r2 : Bool} (c : Cell) (ws : List WAssign)
+    (he : elemAssigns env A wv r2 ws = true) (hA : ∀ w ∈ ws, w.a ≠ wv ∧ w.a ≠ wv + 1) :
+    ∀ τ : Store, τ.get (wv, 0, 0) = (c.1 : Int) + 1 → (r2 = true → τ.get (wv + 1, 0, 0) = (c.2 : Int) + 1) →
+      (run fuel env (lowerAssigns env wv ws) false 0 τ).2 = rowAssigns env r2 c ws τ := by
   induction ws with
-  | nil => intro τ h; exact ⟨rfl, h⟩
+  | nil => intro τ _ _; rfl
   | cons w ws ih =>
-    intro τ hwv
-    simp only [elemAssigns, List.all_cons, Bool.and_eq_true] at he
-    have hne : w.a ≠ wv := hA w (List.mem_cons_self ..)
-    have hτ' : (τ.set (w.a, (env.get w.a).lo + k, 0) (evalA env k w.rhs τ)).get (wv, 0, 0) = (k : Int) + 1 := by
-      rw [Store.set_apply, if_neg]
-      · exact hwv
-      · intro heq
-        simp only [Prod.mk.injEq] at heq
-        exact hne heq.1.symm
-    have := ih (by simpa [elemAssigns] using he.2) (fun w' hw' => hA w' (List.mem_cons_of_mem _ hw')) _ hτ'
-    simp only [lowerAssigns, List.map_cons] at this ⊢
-    rw [run_seqs_cons]
-    simp only [run, rowAssigns]
-    rw [idxExpr_eval env wv w.a w.s k τ (isFull_stride he.1.1) hwv, isFull_start he.1.1,
-      lowerA_eval k τ w.rhs he.1.2 hwv]
-    exact this
+    intro τ h1 h2
+    obtain ⟨hok, hel, hrest⟩ := elemAssigns_cons he
+    have hne := hA w (List.mem_cons_self ..)
+    simp only [lowerAssigns, List.map_cons]
+    rw [run_seqs_cons, lhsIdx_run c w τ hok hel h1 h2]
+    simp only [rowAssigns]
+    have := ih hrest (fun w' hw' => hA w' (List.mem_cons_of_mem _ hw'))
+      (τ.set (locOf env r2 w.a c) (evalA env c w.rhs τ))
+      (by rw [Store.set_apply, if_neg (locOf_ne_var hne.1 _ _)]; exact h1)
+      (by intro hr; rw [Store.set_apply, if_neg (locOf_ne_var hne.2 _ _)]; exact h2 hr)
+    simpa [lowerAssigns] using this
 
-theorem lowerClauses_run {env : Env} {A : List Nat} {wv : Nat} (k : Nat) (cl : WClauses)
-    (he : elemClauses env A wv cl = true) (hA : ∀ a ∈ assignedArrs cl, a ≠ wv) :
-    ∀ τ : Store, τ.get (wv, 0, 0) = (k : Int) + 1 →
-      (run env (lowerClauses env wv cl) false 0 τ).2 = rowClauses env k cl τ := by
+theorem lowerClauses_run {env : Env} {A : List Nat} {wv : Nat} {r2 : Bool} (c : Cell) (cl : WClauses)
+    (he : elemClauses env A wv r2 cl = true) (hA : ∀ a ∈ assignedArrs cl, a ≠ wv ∧ a ≠ wv + 1) :
+    ∀ τ : Store, τ.get (wv, 0, 0) = (c.1 : Int) + 1 → (r2 = true → τ.get (wv + 1, 0, 0) = (c.2 : Int) + 1) →
+      (run fuel env (lowerClauses env wv cl) false 0 τ).2 = rowClauses env r2 c cl τ := by
   induction cl with
-  | nil => intro τ _; rfl
+  | nil => intro τ _ _; rfl
   | masked m body rest ih =>
-    intro τ hwv
+    intro τ h1 h2
     simp only [elemClauses, Bool.and_eq_true] at he
-    simp only [lowerClauses, run, rowClauses, lowerA_eval k τ m he.1.1 hwv]
+    simp only [lowerClauses, run, rowClauses, lowerA_eval c τ m he.1.1 h1 h2]
     split
-    · exact (lowerAssigns_run k body he.1.2
+    · exact lowerAssigns_run c body he.1.2
         (fun w hw => hA _ (by simp only [assignedArrs, List.mem_append, List.mem_map]; exact Or.inl ⟨w, hw, rfl⟩))
-        τ hwv).1
-    · exact ih he.2 (fun a ha => hA a (by simp only [assignedArrs, List.mem_append]; exact Or.inr ha)) τ hwv
+        τ h1 h2
+    · exact ih he.2 (fun a ha => hA a (by simp only [assignedArrs, List.mem_append]; exact Or.inr ha)) τ h1 h2
   | final body =>
-    intro τ hwv
-    exact (lowerAssigns_run k body (by simpa [elemClauses] using he)
-      (fun w hw => hA _ (by simp only [assignedArrs, List.mem_map]; exact ⟨w, hw, rfl⟩)) τ hwv).1
+    intro τ h1 h2
+    exact lowerAssigns_run c body (by simpa [elemClauses] using he)
+      (fun w hw => hA _ (by simp only [assignedArrs, List.mem_map]; exact ⟨w, hw, rfl⟩)) τ h1 h2
 
-/-- the positions processed one after the other, loop variable set as the loop does -/
-def rowFold (env : Env) (wv : Nat) (cl : WClauses) : Nat → Store → Store
-  | 0, σ => σ
-  | n+1, σ => rowClauses env n cl ((rowFold env wv cl n σ).set (wv, 0, 0) (n + 1))
+/-! ## Lemma S: the standard semantics, location by location -/
 
-theorem iters_rowFold {env : Env} {A : List Nat} {wv : Nat} (cl : WClauses)
-    (he : elemClauses env A wv cl = true) (hA : ∀ a ∈ assignedArrs cl, a ≠ wv) (σ : Store) (n : Nat) :
-    iters (fun τ => (run env (lowerClauses env wv cl) false 0 τ).2) wv 1 1 n 0 σ = rowFold env wv cl n σ := by
+/-- `(i, j)` are indices of array `a` not below its lower bounds (rank 1: `j = 0`) -/
+def inRng (env : Env) (r2 : Bool) (a : Nat) (i j : Int) : Prop :=
+  (env.get a).lo ≤ i ∧ (if r2 then (env.get a).lo2 ≤ j else j = 0)
+
+instance (env : Env) (r2 : Bool) (a : Nat) (i j : Int) : Decidable (inRng env r2 a i j) := by
+  unfold inRng; exact inferInstance
+
+/-- the cell of element `(i, j)` of array `a` -/
+def cellOf (env : Env) (r2 : Bool) (a : Nat) (i j : Int) : Cell :=
+  ((i - (env.get a).lo).toNat, if r2 then (j - (env.get a).lo2).toNat else 0)
+
+theorem cellOf_snd (env : Env) (a : Nat) (i j : Int) : (cellOf env false a i j).2 = 0 := rfl
+
+/-- all the index arithmetic: a location is the element of cell `c` iff it is in range and its cell is `c` -/
+theorem loc_iff (env : Env) (r2 : Bool) (a : Nat) (c : Cell) (x : Nat) (i j : Int) (hc : r2 = false → c.2 = 0) :
+    ((x, i, j) : Loc) = locOf env r2 a c ↔ x = a ∧ inRng env r2 a i j ∧ cellOf env r2 a i j = c := by
+  obtain ⟨c1, c2⟩ := c
+  cases r2 with
+  | false =>
+    have h0 : c2 = 0 := hc rfl
+    subst h0
+    simp only [locOf, inRng, cellOf, Prod.mk.injEq, Bool.false_eq_true, if_false, and_true]
+    constructor
+    · rintro ⟨h1, h2, h3⟩
+      exact ⟨h1, ⟨by omega, h3⟩, by omega⟩
+    · rintro ⟨h1, ⟨h2, h3⟩, h4⟩
+      exact ⟨h1, by omega, h3⟩
+  | true =>
+    simp only [locOf, inRng, cellOf, Prod.mk.injEq, if_true]
+    constructor
+    · rintro ⟨h1, h2, h3⟩
+      exact ⟨h1, ⟨by omega, by omega⟩, by omega, by omega⟩
+    · rintro ⟨h1, ⟨h2, h3⟩, h4, h5⟩
+      exact ⟨h1, by omega, by omega⟩
+
+theorem lhsLoc_eq {env : Env} {r2 : Bool} {w : WAssign} (hok : lhsOk env r2 w = true) (c : Cell) :
+    lhsLoc env w c = locOf env r2 w.a c := by
+  unfold lhsOk at hok
+  simp only [Bool.and_eq_true] at hok
+  have hs1 : secStart env w.a w.s = (env.get w.a).lo := isFullD_start hok.1
+  have ht1 : secStride w.s = 1 := isFullD_stride hok.1
+  unfold lhsLoc locOf
+  cases hs2 : w.s2 with
+  | none =>
+    simp only [hs2, Bool.not_eq_true'] at hok
+    simp [hs1, ht1, hok.2]
+  | some s2 =>
+    simp only [hs2, Bool.and_eq_true] at hok
+    have hs2' : secStart2 env w.a s2 = (env.get w.a).lo2 := isFullD_start hok.2.2
+    have ht2 : secStride s2 = 1 := isFullD_stride hok.2.2
+    simp [hs1, ht1, hs2', ht2, hok.2.1]
+
+/-- location `(x,i,j)` is an element of the assignment's LHS whose cell is in `cs` and selected by `ctl` -/
+def MC (env : Env) (r2 : Bool) (cs : List Cell) (ctl : Cell → Bool) (w : WAssign) (x : Nat) (i j : Int) : Prop :=
+  x = w.a ∧ inRng env r2 w.a i j ∧ cellOf env r2 w.a i j ∈ cs ∧ ctl (cellOf env r2 w.a i j) = true
+
+instance (env : Env) (r2 : Bool) (cs : List Cell) (ctl : Cell → Bool) (w : WAssign) (x : Nat) (i j : Int) :
+    Decidable (MC env r2 cs ctl w x i j) := by
+  unfold MC; exact inferInstance
+
+theorem maskedFold_spec (env : Env) (r2 : Bool) (ctl : Cell → Bool) (w : WAssign) (σ₀ : Store)
+    (hok : lhsOk env r2 w = true) (x : Nat) (i j : Int) :
+    ∀ (cs : List Cell) (τ : Store), (r2 = false → ∀ c ∈ cs, c.2 = 0) →
+      (cs.foldl (fun τ c => if ctl c then τ.set (lhsLoc env w c) (evalA env c w.rhs σ₀) else τ) τ) (x, i, j) =
+        if MC env r2 cs ctl w x i j then evalA env (cellOf env r2 w.a i j) w.rhs σ₀ else τ (x, i, j) := by
+  intro cs
+  induction cs with
+  | nil =>
+    intro τ _
+    simp only [List.foldl_nil]
+    rw [if_neg]
+    rintro ⟨_, _, h, _⟩
+    cases h
+  | cons c cs ih =>
+    intro τ hcs
+    have hcs' : r2 = false → ∀ c' ∈ cs, c'.2 = 0 := fun hr c' hc' => hcs hr c' (List.mem_cons_of_mem _ hc')
+    have hc0 : r2 = false → c.2 = 0 := fun hr => hcs hr c (List.mem_cons_self ..)
+    simp only [List.foldl_cons]
+    rw [ih _ hcs']
+    by_cases hm : MC env r2 cs ctl w x i j
+    · rw [if_pos hm, if_pos]
+      obtain ⟨h1, h2, h3, h4⟩ := hm
+      exact ⟨h1, h2, List.mem_cons_of_mem _ h3, h4⟩
+    · rw [if_neg hm]
+      by_cases hc : ctl c = true ∧ ((x, i, j) : Loc) = locOf env r2 w.a c
+      · obtain ⟨hctl, hloc⟩ := hc
+        have hl := (loc_iff env r2 w.a c x i j hc0).1 hloc
+        rw [if_pos hctl, lhsLoc_eq hok, hloc, Store.set_same, if_pos, hl.2.2]
+        exact ⟨hl.1, hl.2.1, by rw [hl.2.2]; exact List.mem_cons_self .., by rw [hl.2.2]; exact hctl⟩
+      · have hstep : (if ctl c = true then τ.set (lhsLoc env w c) (evalA env c w.rhs σ₀) else τ) (x, i, j) = τ (x, i, j) := by
+          by_cases hctl : ctl c = true
+          · rw [if_pos hctl, lhsLoc_eq hok, Store.set_apply, if_neg]
+            intro hloc
+            exact hc ⟨hctl, hloc⟩
+          · rw [if_neg hctl]
+        rw [hstep, if_neg]
+        rintro ⟨h1, h2, h3, h4⟩
+        rcases List.mem_cons.1 h3 with h3 | h3
+        · apply hc
+          rw [h3] at h4
+          exact ⟨h4, (loc_iff env r2 w.a c x i j hc0).2 ⟨h1, h2, h3⟩⟩
+        · exact hm ⟨h1, h2, h3, h4⟩
+
+/-- location `(x,i,j)` is an element of an assigned array whose cell is in `cs` and satisfies `p` -/
+def Sel (env : Env) (A : List Nat) (r2 : Bool) (cs : List Cell) (p : Cell → Bool) (x : Nat) (i j : Int) : Prop :=
+  x ∈ A ∧ inRng env r2 x i j ∧ cellOf env r2 x i j ∈ cs ∧ p (cellOf env r2 x i j) = true
+
+instance (env : Env) (A : List Nat) (r2 : Bool) (cs : List Cell) (p : Cell → Bool) (x : Nat) (i j : Int) :
+    Decidable (Sel env A r2 cs p x i j) := by
+  unfold Sel; exact inferInstance
+
+theorem cellOf_ok (env : Env) (r2 : Bool) (a : Nat) (i j : Int) : r2 = false → (cellOf env r2 a i j).2 = 0 := by
+  intro h; subst h; rfl
+
+theorem Sel.loc {env : Env} {A : List Nat} {r2 : Bool} {cs : List Cell} {p : Cell → Bool} {x : Nat} {i j : Int}
+    (h : Sel env A r2 cs p x i j) : ((x, i, j) : Loc) = locOf env r2 x (cellOf env r2 x i j) :=
+  (loc_iff env r2 x _ x i j (cellOf_ok env r2 x i j)).2 ⟨rfl, h.2.1, rfl⟩
+
+/-- the element of cell `c`, as an explicit triple in range whose cell is `c` -/
+theorem loc_cases (env : Env) (r2 : Bool) (a : Nat) (c : Cell) (hc : r2 = false → c.2 = 0) :
+    ∃ i j, locOf env r2 a c = ((a, i, j) : Loc) ∧ inRng env r2 a i j ∧ cellOf env r2 a i j = c :=
+  ⟨(env.get a).lo + c.1, if r2 then (env.get a).lo2 + c.2 else 0, rfl,
+    ((loc_iff env r2 a c a _ _ hc).1 rfl).2⟩
+
+/-- the assignments of one block: a selected cell gets the row program, everything else is unchanged -/
+theorem stdAssigns_spec {env : Env} {A : List Nat} {wv : Nat} {r2 : Bool} (cs : List Cell) (ctl : Cell → Bool)
+    (hcs : r2 = false → ∀ c ∈ cs, c.2 = 0)
+    (ws : List WAssign) (he : elemAssigns env A wv r2 ws = true) (hA : ∀ w ∈ ws, w.a ∈ A)
+    (x : Nat) (i j : Int) :
+    ∀ σ : Store, stdAssigns env cs ctl ws σ (x, i, j) =
+      if Sel env A r2 cs ctl x i j then rowAssigns env r2 (cellOf env r2 x i j) ws σ (x, i, j)
+      else σ (x, i, j) := by
+  induction ws with
+  | nil => intro σ; simp [stdAssigns, rowAssigns]
+  | cons w ws ih =>
+    intro σ
+    obtain ⟨hok, hel, hews⟩ := elemAssigns_cons he
+    have hwA : w.a ∈ A := hA w (List.mem_cons_self ..)
+    have hAws : ∀ w' ∈ ws, w'.a ∈ A := fun w' hw' => hA w' (List.mem_cons_of_mem _ hw')
+    simp only [stdAssigns]
+    rw [ih hews hAws]
+    have hspec := fun x' i' j' => maskedFold_spec env r2 ctl w σ hok x' i' j' cs σ hcs
+    by_cases hc : Sel env A r2 cs ctl x i j
+    · rw [if_pos hc, if_pos hc]
+      simp only [rowAssigns]
+      -- the two stores agree on the cell and outside A
+      have hrel : Rel env A wv r2 (cellOf env r2 x i j) (maskedAssign env cs ctl w σ)
+          (σ.set (locOf env r2 w.a (cellOf env r2 x i j)) (evalA env (cellOf env r2 x i j) w.rhs σ)) := by
+        constructor
+        · intro a ha
+          obtain ⟨i', j', hEq, hr, hcell⟩ := loc_cases env r2 a (cellOf env r2 x i j) (cellOf_ok env r2 x i j)
+          unfold maskedAssign
+          rw [hEq, hspec, Store.set_apply]
+          by_cases hae : a = w.a
+          · subst hae
+            have hmc : MC env r2 cs ctl w w.a i' j' :=
+              ⟨rfl, hr, by rw [hcell]; exact hc.2.2.1, by rw [hcell]; exact hc.2.2.2⟩
+            rw [if_pos hmc, if_pos hEq.symm, hcell]
+          · have hnm : ¬ MC env r2 cs ctl w a i' j' := fun h => hae h.1
+            have hne : ((a, i', j') : Loc) ≠ locOf env r2 w.a (cellOf env r2 x i j) :=
+              fun h => hae (congrArg Prod.fst h)
+            rw [if_neg hnm, if_neg hne]
+        · intro y hy _ _ i' j'
+          unfold maskedAssign
+          rw [hspec, Store.set_apply]
+          have hyw : y ≠ w.a := fun h => hy (h ▸ hwA)
+          have hnm : ¬ MC env r2 cs ctl w y i' j' := fun h => hyw h.1
+          have hne : ((y, i', j') : Loc) ≠ locOf env r2 w.a (cellOf env r2 x i j) :=
+            fun h => hyw (congrArg Prod.fst h)
+          rw [if_neg hnm, if_neg hne]
+      have := (rowAssigns_congr ws hews hrel).row x hc.1
+      rw [← hc.loc] at this
+      exact this
+    · rw [if_neg hc, if_neg hc]
+      unfold maskedAssign
+      have hnm : ¬ MC env r2 cs ctl w x i j := by
+        rintro ⟨h1, h2, h3, h4⟩
+        apply hc
+        subst h1
+        exact ⟨hwA, h2, h3, h4⟩
+      rw [hspec, if_neg hnm]
+
+theorem stdClauses_spec {env : Env} {A : List Nat} {wv : Nat} {r2 : Bool} (cs : List Cell)
+    (hcs : r2 = false → ∀ c ∈ cs, c.2 = 0) (cl : WClauses)
+    (he : elemClauses env A wv r2 cl = true) (hA : ∀ a ∈ assignedArrs cl, a ∈ A) (x : Nat) (i j : Int) :
+    ∀ (pend : Cell → Bool) (σ : Store), stdClauses env cs pend cl σ (x, i, j) =
+      if Sel env A r2 cs pend x i j then rowClauses env r2 (cellOf env r2 x i j) cl σ (x, i, j)
+      else σ (x, i, j) := by
+  induction cl with
+  | nil => intro pend σ; simp [stdClauses, rowClauses]
+  | final body =>
+    intro pend σ
+    simp only [stdClauses, rowClauses]
+    exact stdAssigns_spec cs pend hcs body (by simpa [elemClauses] using he)
+      (fun w hw => hA _ (by simp only [assignedArrs, List.mem_map]; exact ⟨w, hw, rfl⟩)) x i j σ
+  | masked m body rest ih =>
+    intro pend σ
+    simp only [elemClauses, Bool.and_eq_true] at he
+    have hAb : ∀ w ∈ body, w.a ∈ A := fun w hw =>
+      hA _ (by simp only [assignedArrs, List.mem_append, List.mem_map]; exact Or.inl ⟨w, hw, rfl⟩)
+    have hAr : ∀ a ∈ assignedArrs rest, a ∈ A := fun a ha =>
+      hA a (by simp only [assignedArrs, List.mem_append]; exact Or.inr ha)
+    simp only [stdClauses]
+    rw [ih he.2 hAr]
+    -- the store after the block, location by location
+    have hblock := fun x' i' j' => stdAssigns_spec (A := A) (wv := wv) cs
+      (fun k => pend k && (evalA env k m σ != 0)) hcs body he.1.2 hAb x' i' j' σ
+    by_cases hin : Sel env A r2 cs (fun _ => true) x i j
+    · have hloc := hin.loc
+      by_cases hp : pend (cellOf env r2 x i j) = true
+      · by_cases hv : evalA env (cellOf env r2 x i j) m σ ≠ 0
+        · -- selected by this clause
+          have hb : (evalA env (cellOf env r2 x i j) m σ != 0) = true := by simpa using hv
+          rw [if_neg (by rintro ⟨_, _, _, h⟩; simp [hp, hb] at h), hblock,
+            if_pos ⟨hin.1, hin.2.1, hin.2.2.1, by simp [hp, hb]⟩, if_pos ⟨hin.1, hin.2.1, hin.2.2.1, hp⟩]
+          simp only [rowClauses, if_pos hv]
+        · have hb : (evalA env (cellOf env r2 x i j) m σ != 0) = false := by simpa using hv
+          rw [if_pos ⟨hin.1, hin.2.1, hin.2.2.1, by simp [hp, hb]⟩, if_pos ⟨hin.1, hin.2.1, hin.2.2.1, hp⟩]
+          simp only [rowClauses, if_neg hv]
+          -- cell untouched by the block: continue with the rest on an equivalent store
+          have hrel : Rel env A wv r2 (cellOf env r2 x i j)
+              (stdAssigns env cs (fun k => pend k && (evalA env k m σ != 0)) body σ) σ := by
+            constructor
+            · intro a ha
+              obtain ⟨i', j', hEq, hr, hcell⟩ := loc_cases env r2 a (cellOf env r2 x i j) (cellOf_ok env r2 x i j)
+              have hns : ¬ Sel env A r2 cs (fun k => pend k && (evalA env k m σ != 0)) a i' j' := by
+                rintro ⟨_, _, _, hc'⟩
+                rw [hcell] at hc'
+                simp [hb] at hc'
+              rw [hEq, hblock, if_neg hns]
+            · intro y hy _ _ i' j'
+              have hns : ¬ Sel env A r2 cs (fun k => pend k && (evalA env k m σ != 0)) y i' j' :=
+                fun h => hy h.1
+              rw [hblock, if_neg hns]
+          have := (rowClauses_congr rest he.2 hrel).row x hin.1
+          rw [← hloc] at this
+          exact this
+      · -- not pending: nothing happens to this cell any more
+        rw [if_neg (by rintro ⟨_, _, _, h⟩; simp [hp] at h), hblock,
+          if_neg (by rintro ⟨_, _, _, h⟩; simp [hp] at h), if_neg (by rintro ⟨_, _, _, h⟩; exact hp h)]
+    · have hn : ∀ p : Cell → Bool, ¬ Sel env A r2 cs p x i j := fun p h => hin ⟨h.1, h.2.1, h.2.2.1, rfl⟩
+      rw [if_neg (hn _), hblock, if_neg (hn _), if_neg (hn _)]
+
+/-! ## Lemma F: the generated loops process the cells one after the other -/
+
+/-- `τ` is the store in which exactly the cells of `D` have been processed (loop variables aside) -/
+def Inv (env : Env) (A : List Nat) (wv : Nat) (r2 : Bool) (cl : WClauses) (σ : Store) (D : Cell → Bool)
+    (τ : Store) : Prop :=
+  ∀ (x : Nat) (i j : Int), ((x, i, j) : Loc) ≠ (wv, 0, 0) → (r2 = true → ((x, i, j) : Loc) ≠ (wv + 1, 0, 0)) →
+    τ (x, i, j) =
+      if x ∈ A ∧ inRng env r2 x i j ∧ D (cellOf env r2 x i j) = true
+      then rowClauses env r2 (cellOf env r2 x i j) cl σ (x, i, j) else σ (x, i, j)
+
+theorem inv_init {env : Env} {A : List Nat} {wv : Nat} {r2 : Bool} {cl : WClauses} {σ : Store} {D : Cell → Bool}
+    (hD : ∀ c, D c = false) : Inv env A wv r2 cl σ D σ := by
+  intro x i j _ _
+  rw [if_neg]
+  rintro ⟨_, _, h⟩
+  rw [hD] at h
+  cases h
+
+theorem inv_congr {env : Env} {A : List Nat} {wv : Nat} {r2 : Bool} {cl : WClauses} {σ τ : Store}
+    {D D' : Cell → Bool} (h : ∀ c, D c = D' c) (hi : Inv env A wv r2 cl σ D τ) : Inv env A wv r2 cl σ D' τ := by
+  have : D = D' := funext h
+  subst this
+  exact hi
+
+/-- changing the loop variables does not disturb the invariant -/
+theorem inv_scratch {env : Env} {A : List Nat} {wv : Nat} {r2 : Bool} {cl : WClauses} {σ τ τ' : Store}
+    {D : Cell → Bool} (hi : Inv env A wv r2 cl σ D τ)
+    (h : ∀ l : Loc, l ≠ (wv, 0, 0) → (r2 = true → l ≠ (wv + 1, 0, 0)) → τ' l = τ l) : Inv env A wv r2 cl σ D τ' := by
+  intro x i j h1 h2
+  rw [h _ h1 h2]
+  exact hi x i j h1 h2
+
+/-- processing one more cell -/
+theorem inv_step {env : Env} {A : List Nat} {wv : Nat} {r2 : Bool} {cl : WClauses} {σ : Store}
+    (he : elemClauses env A wv r2 cl = true) (hA : ∀ a ∈ assignedArrs cl, a ∈ A)
+    (hwv : wv ∉ A) (hwv1 : wv + 1 ∉ A)
+    (D D' : Cell → Bool) (c : Cell) (hc : r2 = false → c.2 = 0) (hcD : D c = false)
+    (hD' : ∀ c', D' c' = (D c' || c' == c)) (τ : Store) (hinv : Inv env A wv r2 cl σ D τ) :
+    Inv env A wv r2 cl σ D' (rowClauses env r2 c cl τ) := by
+  have hscr : ∀ a ∈ A, ∀ c', locOf env r2 a c' ≠ (wv, 0, 0) ∧ locOf env r2 a c' ≠ (wv + 1, 0, 0) := by
+    intro a ha c'
+    constructor
+    · intro h
+      have e : a = wv := congrArg Prod.fst h
+      exact hwv (e ▸ ha)
+    · intro h
+      have e : a = wv + 1 := congrArg Prod.fst h
+      exact hwv1 (e ▸ ha)
+  intro x i j h1 h2
+  by_cases hloc : x ∈ A ∧ ((x, i, j) : Loc) = locOf env r2 x c
+  · obtain ⟨hx, heq⟩ := hloc
+    have hl := (loc_iff env r2 x c x i j hc).1 heq
+    have hd : D' (cellOf env r2 x i j) = true := by rw [hl.2.2, hD']; simp
+    rw [if_pos ⟨hx, hl.2.1, hd⟩, hl.2.2]
+    have hrel : Rel env A wv r2 c τ σ := by
+      constructor
+      · intro a ha
+        obtain ⟨i', j', hEq, hr, hcell⟩ := loc_cases env r2 a c hc
+        have hs := hscr a ha c
+        rw [hEq] at hs ⊢
+        rw [hinv a i' j' hs.1 (fun _ => hs.2), if_neg]
+        rintro ⟨_, _, h⟩
+        rw [hcell, hcD] at h
+        cases h
+      · intro y hy hyw hyw1 i' j'
+        rw [hinv y i' j' (fun h => hyw (congrArg Prod.fst h)) (fun _ h => hyw1 (congrArg Prod.fst h)), if_neg]
+        exact fun h => hy h.1
+    have := (rowClauses_congr cl he hrel).row x hx
+    rw [← heq] at this
+    exact this
+  · have hfr : ∀ a ∈ A, ((x, i, j) : Loc) ≠ locOf env r2 a c := by
+      intro a ha h
+      have hxa : x = a := congrArg Prod.fst h
+      exact hloc ⟨hxa ▸ ha, hxa ▸ h⟩
+    rw [rowClauses_frame env A r2 c cl hA _ hfr, hinv x i j h1 h2]
+    by_cases hd : x ∈ A ∧ inRng env r2 x i j ∧ D (cellOf env r2 x i j) = true
+    · rw [if_pos hd, if_pos]
+      refine ⟨hd.1, hd.2.1, ?_⟩
+      rw [hD', hd.2.2]
+      rfl
+    · rw [if_neg hd, if_neg]
+      rintro ⟨hx, hr, h⟩
+      rw [hD', Bool.or_eq_true] at h
+      rcases h with h | h
+      · exact hd ⟨hx, hr, h⟩
+      · exact hloc ⟨hx, (loc_iff env r2 x c x i j hc).2 ⟨rfl, hr, by simpa using h⟩⟩
+
+/-- rank 1: the cells `(k, 0)`, `k < n` -/
+def D1 (n : Nat) (c : Cell) : Bool := c.2 == 0 && decide (c.1 < n)
+
+/-- rank 2, in the middle of column `k2`: the cells of the columns `< k2` and `(k, k2)` with `k < n` -/
+def D2 (n1 k2 n : Nat) (c : Cell) : Bool :=
+  decide (c.1 < n1) && (decide (c.2 < k2) || (c.2 == k2 && decide (c.1 < n)))
+
+theorem D1_succ (n : Nat) (c : Cell) : D1 (n + 1) c = (D1 n c || c == (n, 0)) := by
+  obtain ⟨a, b⟩ := c
+  rw [Bool.eq_iff_iff]
+  simp only [D1, Bool.and_eq_true, Bool.or_eq_true, beq_iff_eq, decide_eq_true_eq, Prod.mk.injEq]
+  omega
+
+theorem D2_succ (n1 k2 n : Nat) (hn : n < n1) (c : Cell) : D2 n1 k2 (n + 1) c = (D2 n1 k2 n c || c == (n, k2)) := by
+  obtain ⟨a, b⟩ := c
+  rw [Bool.eq_iff_iff]
+  simp only [D2, Bool.and_eq_true, Bool.or_eq_true, beq_iff_eq, decide_eq_true_eq, Prod.mk.injEq]
+  omega
+
+theorem D2_col (n1 k2 : Nat) (c : Cell) : D2 n1 k2 n1 c = D2 n1 (k2 + 1) 0 c := by
+  obtain ⟨a, b⟩ := c
+  rw [Bool.eq_iff_iff]
+  simp only [D2, Bool.and_eq_true, Bool.or_eq_true, beq_iff_eq, decide_eq_true_eq]
+  omega
+
+theorem mem_rowCells (k2 n : Nat) (c : Cell) : c ∈ rowCells k2 n ↔ c.2 = k2 ∧ c.1 < n := by
+  obtain ⟨a, b⟩ := c
   induction n with
-  | zero => rfl
+  | zero => simp [rowCells]
   | succ n ih =>
-    rw [iters_succ_last, ih]
-    simp only [rowFold]
-    have h1 : (1 : Int) + (0 + (n : Int)) * 1 = (n : Int) + 1 := by omega
-    rw [h1]
-    exact lowerClauses_run n cl he hA _ (by simp)
+    simp only [rowCells, List.mem_append, ih, List.mem_singleton, Prod.mk.injEq]
+    omega
 
-theorem whereUpper_eval (env : Env) (a : Nat) (s : Sec) (σ : Store) (hst : secStride s = 1) :
-    trip 1 (eval (whereUpper env a s) σ) 1 = secExtent env a s := by
-  have htrip : ∀ u : Int, trip 1 u 1 = u.toNat := by
-    intro u
+theorem mem_cells (n1 m : Nat) (c : Cell) : c ∈ cells n1 m ↔ c.1 < n1 ∧ c.2 < m := by
+  induction m with
+  | zero => simp [cells]
+  | succ m ih =>
+    simp only [cells, List.mem_append, ih, mem_rowCells]
+    omega
+
+section loops
+variable {env : Env} {A : List Nat} {wv : Nat} {cl : WClauses}
+
+/-- rank 1: `n` iterations of the generated loop -/
+theorem iters_inv1 (he : elemClauses env A wv false cl = true) (hA : ∀ a ∈ assignedArrs cl, a ∈ A)
+    (hwv : wv ∉ A) (hwv1 : wv + 1 ∉ A) (σ : Store) (n : Nat) :
+    Inv env A wv false cl σ (D1 n)
+      (iters (fun τ => (run fuel env (lowerClauses env wv cl) false 0 τ).2) wv 1 1 n 0 σ) := by
+  have hAne : ∀ a ∈ assignedArrs cl, a ≠ wv ∧ a ≠ wv + 1 :=
+    fun a ha => ⟨fun h => hwv (h ▸ hA a ha), fun h => hwv1 (h ▸ hA a ha)⟩
+  induction n with
+  | zero => exact inv_init (fun c => by simp [D1])
+  | succ n ih =>
+    rw [iters_succ_last]
+    have h1 : (1 : Int) + (0 + (n : Int)) * 1 = (n : Int) + 1 := by omega
+    rw [h1, lowerClauses_run (r2 := false) (n, 0) cl he hAne _ (by simp) (by intro h; cases h)]
+    refine inv_step he hA hwv hwv1 (D1 n) (D1 (n + 1)) (n, 0) (fun _ => rfl) (by simp [D1])
+      (D1_succ n) _ ?_
+    exact inv_scratch ih (fun l hl _ => by rw [Store.set_apply, if_neg hl])
+
+/-- rank 2: `n ≤ n1` iterations of the inner loop within iteration `k2` of the outer loop -/
+theorem iters_inv2_inner (he : elemClauses env A wv true cl = true) (hA : ∀ a ∈ assignedArrs cl, a ∈ A)
+    (hwv : wv ∉ A) (hwv1 : wv + 1 ∉ A) (σ : Store) (n1 k2 : Nat) (τ0 : Store)
+    (h0 : Inv env A wv true cl σ (D2 n1 k2 0) τ0) (hk : τ0.get (wv + 1, 0, 0) = (k2 : Int) + 1) :
+    ∀ n, n ≤ n1 →
+      Inv env A wv true cl σ (D2 n1 k2 n)
+        (iters (fun τ => (run fuel env (lowerClauses env wv cl) false 0 τ).2) wv 1 1 n 0 τ0) ∧
+      (iters (fun τ => (run fuel env (lowerClauses env wv cl) false 0 τ).2) wv 1 1 n 0 τ0).get (wv + 1, 0, 0)
+        = (k2 : Int) + 1 := by
+  have hAne : ∀ a ∈ assignedArrs cl, a ≠ wv ∧ a ≠ wv + 1 :=
+    fun a ha => ⟨fun h => hwv (h ▸ hA a ha), fun h => hwv1 (h ▸ hA a ha)⟩
+  intro n
+  induction n with
+  | zero => intro _; exact ⟨h0, hk⟩
+  | succ n ih =>
+    intro hn
+    obtain ⟨ihI, ihK⟩ := ih (by omega)
+    rw [iters_succ_last]
+    have h1 : (1 : Int) + (0 + (n : Int)) * 1 = (n : Int) + 1 := by omega
+    have hne : ((wv + 1, 0, 0) : Loc) ≠ (wv, 0, 0) := by
+      intro h
+      have : wv + 1 = wv := congrArg Prod.fst h
+      omega
+    have hk' : ((iters (fun τ => (run fuel env (lowerClauses env wv cl) false 0 τ).2) wv 1 1 n 0 τ0).set
+        (wv, 0, 0) ((n : Int) + 1)).get (wv + 1, 0, 0) = (k2 : Int) + 1 := by
+      rw [Store.set_apply, if_neg hne]; exact ihK
+    rw [h1, lowerClauses_run (r2 := true) (n, k2) cl he hAne _ (by simp) (fun _ => hk')]
+    constructor
+    · refine inv_step he hA hwv hwv1 (D2 n1 k2 n) (D2 n1 k2 (n + 1)) (n, k2) (fun h => by cases h)
+        (by simp [D2]) (D2_succ n1 k2 n (by omega)) _ ?_
+      exact inv_scratch ihI (fun l hl _ => by rw [Store.set_apply, if_neg hl])
+    · rw [rowClauses_frame env A true (n, k2) cl hA _
+        (fun a ha => locOf_ne_var (fun (h : a = wv + 1) => hwv1 (h ▸ ha)) _ _)]
+      exact hk'
+
+end loops
+
+/-! ## loop bounds -/
+
+theorem trip_one (u : Int) : trip 1 u 1 = u.toNat := by
+  simp only [trip, Int.tdiv_one]
+  rw [if_neg (by decide)]
+  congr 1
+  omega
+
+theorem whereUpperD_eval (typed allFull : Bool) (lo hi : Int) (s : Sec) (σ : Store)
+    (hf : allFull = true → isFullD typed lo hi s = true) (hst : secStride s = 1) :
+    trip 1 (eval (whereUpperD typed allFull lo hi s) σ) 1 = trip (s.lo.getD lo) (s.hi.getD hi) 1 := by
+  have hext : trip (s.lo.getD lo) (s.hi.getD hi) 1 = (s.hi.getD hi - s.lo.getD lo + 1).toNat := by
     simp only [trip, Int.tdiv_one]
     rw [if_neg (by decide)]
-    congr 1
-    omega
-  have hext : secExtent env a s = (secStop env a s - secStart env a s + 1).toNat := by
-    simp only [secExtent, trip, hst, Int.tdiv_one]
-    rw [if_neg (by decide)]
-  rw [htrip, hext]
-  unfold whereUpper
+  rw [trip_one, hext]
+  unfold whereUpperD
   simp only
   split
-  · rename_i hf
-    rw [isFull_start hf, isFull_stop hf]
+  · rename_i haf
+    rw [isFullD_start (hf haf), isFullD_stop (hf haf)]
     split
     · split
       · rename_i h1
@@ -357,262 +814,34 @@ theorem whereUpper_eval (env : Env) (a : Nat) (s : Sec) (σ : Store) (hst : secS
         right
         have : t = 1 := by simpa [secStride, hs] using hst
         rw [this]
-    unfold secStart secStop
     rcases hr with hr | hr <;> cases hl : s.lo <;> cases hh : s.hi <;>
-      simp only [hr, Option.getD_some, Option.getD_none] <;> (try split) <;>
+      simp only [hr, Option.getD_some, Option.getD_none] <;> (try split) <;> (try split) <;>
       simp_all [eval, evalBin, litE_eval'] <;> (try (congr 1; omega)) <;> (try omega)
 
-/-! ## Lemma S: the standard semantics, location by location -/
+/-! ## the first section of the mask -/
 
-/-- location `(x,i,j)` is element `i - lo` (`< n`) of the assignment's full-range LHS and is selected by `ctl` -/
-def MC (env : Env) (ctl : Nat → Bool) (w : WAssign) (n : Nat) (x : Nat) (i j : Int) : Prop :=
-  x = w.a ∧ j = 0 ∧ (env.get w.a).lo ≤ i ∧ i < (env.get w.a).lo + n ∧
-    ctl (i - (env.get w.a).lo).toNat = true
-
-instance (env : Env) (ctl : Nat → Bool) (w : WAssign) (n x : Nat) (i j : Int) : Decidable (MC env ctl w n x i j) := by
-  unfold MC; exact inferInstance
-
-theorem maskedStore_spec (env : Env) (ctl : Nat → Bool) (w : WAssign) (σ₀ : Store)
-    (hf : isFull env w.a w.s = true) (x : Nat) (i j : Int) :
-    ∀ (n : Nat) (τ : Store), maskedStore env ctl w σ₀ n τ (x, i, j) =
-      if MC env ctl w n x i j then evalA env (i - (env.get w.a).lo).toNat w.rhs σ₀ else τ (x, i, j) := by
-  intro n
-  induction n with
-  | zero =>
-    intro τ
-    simp only [maskedStore]
-    rw [if_neg]
-    rintro ⟨_, _, h1, h2, _⟩
-    omega
-  | succ n ih =>
-    intro τ
-    simp only [maskedStore, isFull_start hf, isFull_stride hf, Int.mul_one]
-    by_cases hc : ctl n = true
-    · rw [if_pos hc, Store.set_apply]
-      by_cases hloc : (x, i, j) = (w.a, (env.get w.a).lo + (n : Int), 0)
-      · rw [if_pos hloc]
-        simp only [Prod.mk.injEq] at hloc
-        obtain ⟨h1, h2, h3⟩ := hloc
-        have hk : (i - (env.get w.a).lo).toNat = n := by omega
-        rw [if_pos ⟨h1, h3, by omega, by omega, by rw [hk]; exact hc⟩, hk]
-      · rw [if_neg hloc, ih]
-        by_cases hn : MC env ctl w n x i j
-        · rw [if_pos hn, if_pos]
-          obtain ⟨h1, h2, h3, h4, h5⟩ := hn
-          exact ⟨h1, h2, h3, by omega, h5⟩
-        · rw [if_neg hn, if_neg]
-          rintro ⟨h1, h2, h3, h4, h5⟩
-          by_cases hi : i < (env.get w.a).lo + (n : Int)
-          · exact hn ⟨h1, h2, h3, hi, h5⟩
-          · apply hloc
-            rw [h1, h2]
-            have : i = (env.get w.a).lo + (n : Int) := by omega
-            rw [this]
-    · rw [if_neg hc, ih]
-      by_cases hn : MC env ctl w n x i j
-      · rw [if_pos hn, if_pos]
-        obtain ⟨h1, h2, h3, h4, h5⟩ := hn
-        exact ⟨h1, h2, h3, by omega, h5⟩
-      · rw [if_neg hn, if_neg]
-        rintro ⟨h1, h2, h3, h4, h5⟩
-        by_cases hi : i < (env.get w.a).lo + (n : Int)
-        · exact hn ⟨h1, h2, h3, hi, h5⟩
-        · have hk : (i - (env.get w.a).lo).toNat = n := by omega
-          rw [hk] at h5
-          exact hc h5
-
-/-- location `(x,i,j)` lies in one of the rows `0..n-1` of the assigned arrays `A` -/
-def InR (env : Env) (A : List Nat) (n : Nat) (x : Nat) (i j : Int) : Prop :=
-  x ∈ A ∧ j = 0 ∧ (env.get x).lo ≤ i ∧ i < (env.get x).lo + n
-
-instance (env : Env) (A : List Nat) (n x : Nat) (i j : Int) : Decidable (InR env A n x i j) := by
-  unfold InR; exact inferInstance
-
-def rowIdx (env : Env) (x : Nat) (i : Int) : Nat := (i - (env.get x).lo).toNat
-
-theorem InR.idx {env : Env} {A : List Nat} {n x : Nat} {i j : Int} (h : InR env A n x i j) :
-    i = (env.get x).lo + (rowIdx env x i : Nat) ∧ rowIdx env x i < n ∧ j = 0 := by
-  obtain ⟨_, h2, h3, h4⟩ := h
-  unfold rowIdx
-  omega
-
-theorem Rel.refl (env : Env) (A : List Nat) (wv k : Nat) (τ : Store) : Rel env A wv k τ τ :=
-  ⟨fun _ _ => rfl, fun _ _ _ _ _ => rfl⟩
-
-/-- the assignments of one block: a selected row gets the row program, everything else is unchanged -/
-theorem stdAssigns_spec {env : Env} {A : List Nat} {wv : Nat} (n : Nat) (ctl : Nat → Bool)
-    (ws : List WAssign) (he : elemAssigns env A wv ws = true) (hA : ∀ w ∈ ws, w.a ∈ A)
-    (x : Nat) (i j : Int) :
-    ∀ σ : Store, stdAssigns env n ctl ws σ (x, i, j) =
-      if InR env A n x i j ∧ ctl (rowIdx env x i) = true then rowAssigns env (rowIdx env x i) ws σ (x, i, j)
-      else σ (x, i, j) := by
-  induction ws with
-  | nil => intro σ; simp [stdAssigns, rowAssigns]
-  | cons w ws ih =>
-    intro σ
-    have he' := he
-    simp only [elemAssigns, List.all_cons, Bool.and_eq_true] at he'
-    have hews : elemAssigns env A wv ws = true := by simpa [elemAssigns] using he'.2
-    have hwA : w.a ∈ A := hA w (List.mem_cons_self ..)
-    have hAws : ∀ w' ∈ ws, w'.a ∈ A := fun w' hw' => hA w' (List.mem_cons_of_mem _ hw')
-    simp only [stdAssigns, maskedAssign]
-    rw [ih hews hAws]
-    by_cases hc : InR env A n x i j ∧ ctl (rowIdx env x i) = true
-    · rw [if_pos hc, if_pos hc]
-      simp only [rowAssigns]
-      obtain ⟨hin, hctl⟩ := hc
-      obtain ⟨hi, hlt, hj⟩ := hin.idx
-      -- the two stores agree on row k and outside A
-      have hrel : Rel env A wv (rowIdx env x i) (maskedStore env ctl w σ n σ)
-          (σ.set (w.a, (env.get w.a).lo + (rowIdx env x i : Nat), 0) (evalA env (rowIdx env x i) w.rhs σ)) := by
-        constructor
-        · intro a ha
-          rw [maskedStore_spec env ctl w σ he'.1.1, Store.set_apply]
-          by_cases hae : a = w.a
-          · rw [hae]
-            have hk : ((env.get w.a).lo + (rowIdx env x i : Nat) - (env.get w.a).lo).toNat = rowIdx env x i := by omega
-            rw [if_pos ⟨rfl, rfl, by omega, by omega, by rw [hk]; exact hctl⟩, if_pos rfl, hk]
-          · rw [if_neg (fun h => hae h.1), if_neg]
-            intro h
-            exact hae (congrArg Prod.fst h)
-        · intro y hy _ i' j'
-          rw [maskedStore_spec env ctl w σ he'.1.1, Store.set_apply]
-          have hyw : y ≠ w.a := fun h => hy (h ▸ hwA)
-          rw [if_neg (fun h => hyw h.1), if_neg]
-          intro h
-          exact hyw (congrArg Prod.fst h)
-      have := (rowAssigns_congr (k := rowIdx env x i) ws hews hrel).row x hin.1
-      have hloc : ((x, i, j) : Loc) = (x, (env.get x).lo + (rowIdx env x i : Nat), 0) := by
-        rw [hj]; exact congrArg (fun t => ((x, t, (0 : Int)) : Loc)) hi
-      rw [hloc]
-      exact this
-    · rw [if_neg hc, if_neg hc, maskedStore_spec env ctl w σ he'.1.1, if_neg]
-      rintro ⟨h1, h2, h3, h4, h5⟩
-      apply hc
-      subst h1
-      exact ⟨⟨hwA, h2, h3, h4⟩, h5⟩
-
-theorem stdClauses_spec {env : Env} {A : List Nat} {wv : Nat} (n : Nat) (cl : WClauses)
-    (he : elemClauses env A wv cl = true) (hA : ∀ a ∈ assignedArrs cl, a ∈ A) (x : Nat) (i j : Int) :
-    ∀ (pend : Nat → Bool) (σ : Store), stdClauses env n pend cl σ (x, i, j) =
-      if InR env A n x i j ∧ pend (rowIdx env x i) = true then rowClauses env (rowIdx env x i) cl σ (x, i, j)
-      else σ (x, i, j) := by
-  induction cl with
-  | nil => intro pend σ; simp [stdClauses, rowClauses]
-  | final body =>
-    intro pend σ
-    simp only [stdClauses, rowClauses]
-    exact stdAssigns_spec n pend body (by simpa [elemClauses] using he)
-      (fun w hw => hA _ (by simp only [assignedArrs, List.mem_map]; exact ⟨w, hw, rfl⟩)) x i j σ
-  | masked m body rest ih =>
-    intro pend σ
-    simp only [elemClauses, Bool.and_eq_true] at he
-    have hAb : ∀ w ∈ body, w.a ∈ A := fun w hw =>
-      hA _ (by simp only [assignedArrs, List.mem_append, List.mem_map]; exact Or.inl ⟨w, hw, rfl⟩)
-    have hAr : ∀ a ∈ assignedArrs rest, a ∈ A := fun a ha =>
-      hA a (by simp only [assignedArrs, List.mem_append]; exact Or.inr ha)
-    simp only [stdClauses]
-    rw [ih he.2 hAr]
-    -- the store after the block, location by location
-    have hblock := fun x' i' j' => stdAssigns_spec (A := A) (wv := wv) n
-      (fun k => pend k && (evalA env k m σ != 0)) body he.1.2 hAb x' i' j' σ
-    by_cases hin : InR env A n x i j
-    · obtain ⟨hi, hlt, hj⟩ := hin.idx
-      by_cases hp : pend (rowIdx env x i) = true
-      · by_cases hv : evalA env (rowIdx env x i) m σ ≠ 0
-        · -- selected by this clause
-          have hb : (evalA env (rowIdx env x i) m σ != 0) = true := by simpa using hv
-          rw [if_neg (by simp [hp, hb]), hblock, if_pos ⟨hin, by simp [hp, hb]⟩, if_pos ⟨hin, hp⟩]
-          simp only [rowClauses, if_pos hv]
-        · have hb : (evalA env (rowIdx env x i) m σ != 0) = false := by simpa using hv
-          rw [if_pos ⟨hin, by simp [hp, hb]⟩, if_pos ⟨hin, hp⟩]
-          simp only [rowClauses, if_neg hv]
-          -- row untouched by the block: continue with the rest on an equivalent store
-          have hrel : Rel env A wv (rowIdx env x i)
-              (stdAssigns env n (fun k => pend k && (evalA env k m σ != 0)) body σ) σ := by
-            constructor
-            · intro a ha
-              rw [hblock, if_neg]
-              rintro ⟨hin', hc'⟩
-              have : rowIdx env a ((env.get a).lo + (rowIdx env x i : Nat)) = rowIdx env x i := by
-                unfold rowIdx; omega
-              rw [this] at hc'
-              simp [hb] at hc'
-            · intro y hy _ i' j'
-              rw [hblock, if_neg]
-              rintro ⟨hin', _⟩
-              exact hy hin'.1
-          have := (rowClauses_congr (k := rowIdx env x i) rest he.2 hrel).row x hin.1
-          have hloc : ((x, i, j) : Loc) = (x, (env.get x).lo + (rowIdx env x i : Nat), 0) := by
-            rw [hj]; exact congrArg (fun t => ((x, t, (0 : Int)) : Loc)) hi
-          rw [hloc]
-          exact this
-      · -- not pending: nothing happens to this row any more
-        rw [if_neg (by simp [hp]), hblock, if_neg (by simp [hp]), if_neg (by simp [hp])]
-    · rw [if_neg (fun h => hin h.1), hblock, if_neg (fun h => hin h.1), if_neg (fun h => hin h.1)]
-
-/-! ## Lemma F: the fold over the positions, location by location -/
-
-theorem rowFold_spec {env : Env} {A : List Nat} {wv : Nat} (cl : WClauses)
-    (he : elemClauses env A wv cl = true) (hA : ∀ a ∈ assignedArrs cl, a ∈ A) (hwv : wv ∉ A) (σ : Store) :
-    ∀ (n : Nat) (x : Nat) (i j : Int), (x, i, j) ≠ ((wv, 0, 0) : Loc) →
-      rowFold env wv cl n σ (x, i, j) =
-        if InR env A n x i j then rowClauses env (rowIdx env x i) cl σ (x, i, j) else σ (x, i, j) := by
-  intro n
-  induction n with
-  | zero =>
-    intro x i j _
-    simp only [rowFold]
-    rw [if_neg]
-    rintro ⟨_, _, h1, h2⟩
-    omega
-  | succ n ih =>
-    intro x i j hne
-    simp only [rowFold]
-    by_cases hrow : x ∈ A ∧ i = (env.get x).lo + (n : Int) ∧ j = 0
-    · -- the row processed by this iteration
-      obtain ⟨hxA, hi, hj⟩ := hrow
-      have hk : rowIdx env x i = n := by unfold rowIdx; omega
-      have hin : InR env A (n + 1) x i j := ⟨hxA, hj, by omega, by omega⟩
-      rw [if_pos hin, hk]
-      have hrel : Rel env A wv n ((rowFold env wv cl n σ).set (wv, 0, 0) ((n : Int) + 1)) σ := by
-        constructor
-        · intro a ha
-          have hane : ((a, (env.get a).lo + (n : Int), 0) : Loc) ≠ (wv, 0, 0) := by
-            intro h
-            have hawv : a = wv := congrArg Prod.fst h
-            exact hwv (hawv ▸ ha)
-          rw [Store.set_apply, if_neg hane, ih a _ 0 hane, if_neg]
-          rintro ⟨_, _, _, h4⟩
-          omega
-        · intro y hy hyw i' j'
-          have hyne : ((y, i', j') : Loc) ≠ (wv, 0, 0) := fun h => hyw (congrArg Prod.fst h)
-          rw [Store.set_apply, if_neg hyne, ih y i' j' hyne, if_neg]
-          rintro ⟨h1, _⟩
-          exact hy h1
-      have := (rowClauses_congr (k := n) cl he hrel).row x hxA
-      rw [hi, hj]
-      exact this
-    · rw [rowClauses_frame env A n cl hA x i j hrow, Store.set_apply, if_neg hne, ih x i j hne]
-      by_cases hin : InR env A n x i j
-      · rw [if_pos hin, if_pos]
-        obtain ⟨h1, h2, h3, h4⟩ := hin
-        exact ⟨h1, h2, h3, by omega⟩
-      · rw [if_neg hin, if_neg]
-        rintro ⟨h1, h2, h3, h4⟩
-        by_cases hi : i < (env.get x).lo + (n : Int)
-        · exact hin ⟨h1, h2, h3, hi⟩
-        · exact hrow ⟨h1, by omega, h2⟩
-
-theorem firstSec_stride (env : Env) (A : List Nat) (wv : Nat) (m : AExpr) (a : Nat) (sc : Sec) :
-    firstSec m = some (a, sc) → elemA env A wv m = true → secStride sc = 1 := by
+theorem firstSec_elem (env : Env) (A : List Nat) (wv : Nat) (r2 : Bool) (m : AExpr) (a : Nat) (s1 : Sec)
+    (os2 : Option Sec) :
+    firstSec m = some (a, s1, os2) → elemA env A wv r2 m = true →
+      secStride s1 = 1 ∧ r2 = os2.isSome ∧ (∀ s2, os2 = some s2 → secStride s2 = 1) := by
   induction m with
   | scal e => intro hfs; simp [firstSec] at hfs
   | sec a' s' =>
     intro hfs hm
     simp only [firstSec, Option.some.injEq, Prod.mk.injEq] at hfs
+    simp only [elemA, Bool.and_eq_true, beq_iff_eq, Bool.not_eq_true'] at hm
+    obtain ⟨_, h2, h3⟩ := hfs
+    subst h2 h3
+    exact ⟨hm.1.1.1.2, hm.1.1.1.1, fun s2 h => by cases h⟩
+  | sec2 a' s1' s2' =>
+    intro hfs hm
+    simp only [firstSec, Option.some.injEq, Prod.mk.injEq] at hfs
     simp only [elemA, Bool.and_eq_true, beq_iff_eq] at hm
-    rw [← hfs.2]; exact hm.1.1
+    obtain ⟨_, h2, h3⟩ := hfs
+    subst h2 h3
+    refine ⟨hm.1.1.1.1.2, hm.1.1.1.1.1, fun s2 h => ?_⟩
+    cases h
+    exact hm.1.1.1.2
   | un op e ih => intro hfs hm; exact ih (by simpa [firstSec] using hfs) (by simpa [elemA] using hm)
   | bin op e1 e2 ih1 ih2 =>
     intro hfs hm
@@ -621,54 +850,190 @@ theorem firstSec_stride (env : Env) (A : List Nat) (wv : Nat) (m : AExpr) (a : N
     cases h1 : firstSec e1 with
     | none => rw [h1] at hfs; exact ih2 hfs hm.2
     | some r => rw [h1] at hfs; exact ih1 (by rw [h1]; exact hfs) hm.1
-  | sum a' => intro hfs; simp [firstSec] at hfs
-  | sumDim a' => intro hfs; simp [firstSec] at hfs
+  | red k a' => intro hfs; simp [firstSec] at hfs
+  | redDim k a' => intro hfs; simp [firstSec] at hfs
 
-/-- **the WHERE lowering is sound for elemental constructs** (all extents, all stores): the
-generated loop leaves the store of the standard semantics, and `extent + 1` in its loop variable -/
+section outer
+variable {env : Env} {A : List Nat} {wv : Nat} {cl : WClauses}
+
+/-- rank 2: `m` iterations of the outer loop (each one a complete inner loop over `n1` cells) -/
+theorem iters_inv2_outer (he : elemClauses env A wv true cl = true) (hA : ∀ a ∈ assignedArrs cl, a ∈ A)
+    (hwv : wv ∉ A) (hwv1 : wv + 1 ∉ A) (σ : Store) (n1 : Nat) (U1 : Expr)
+    (hU : ∀ τ, trip 1 (eval U1 τ) 1 = n1) (m : Nat) :
+    Inv env A wv true cl σ (D2 n1 m 0)
+      (iters (fun τ => (run fuel env (.doc wv (.lit 1) U1 (some (.lit 1)) (lowerClauses env wv cl)) false 0 τ).2)
+        (wv + 1) 1 1 m 0 σ) ∧
+    ((iters (fun τ => (run fuel env (.doc wv (.lit 1) U1 (some (.lit 1)) (lowerClauses env wv cl)) false 0 τ).2)
+        (wv + 1) 1 1 m 0 σ).get (wv, 0, 0) = if m = 0 then σ.get (wv, 0, 0) else (n1 : Int) + 1) := by
+  induction m with
+  | zero => exact ⟨inv_init (fun c => by simp [D2]), rfl⟩
+  | succ m ih =>
+    obtain ⟨ihI, _⟩ := ih
+    rw [iters_succ_last]
+    have h1 : (1 : Int) + (0 + (m : Int)) * 1 = (m : Int) + 1 := by omega
+    rw [h1]
+    simp only [run, eval, hU, runIters_eq_iters]
+    have hτ0 : Inv env A wv true cl σ (D2 n1 m 0)
+        ((iters (fun τ => (run fuel env (.doc wv (.lit 1) U1 (some (.lit 1)) (lowerClauses env wv cl)) false 0 τ).2)
+          (wv + 1) 1 1 m 0 σ).set (wv + 1, 0, 0) ((m : Int) + 1)) :=
+      inv_scratch ihI (fun l _ hl => by rw [Store.set_apply, if_neg (hl rfl)])
+    have hin := (iters_inv2_inner (fuel := fuel) he hA hwv hwv1 σ n1 m _ hτ0 (by simp) n1 (Nat.le_refl _)).1
+    simp only [run, eval, hU, runIters_eq_iters] at hin ⊢
+    constructor
+    · apply inv_congr (D2_col n1 m)
+      exact inv_scratch hin (fun l hl _ => by rw [Store.set_apply, if_neg hl])
+    · rw [Store.set_same, if_neg (by omega)]
+      omega
+
+end outer
+
+/-! ## the theorem -/
+
+/-- **the WHERE lowering is sound for elemental constructs** (rank 1 and rank 2, all extents and
+bounds, all stores): the generated loop nest leaves the store of the standard semantics, and
+`extent + 1` in its loop variables (`whereScratch`) -/
 theorem where_lowered_sound (env : Env) (tag wv : Nat) (cl : WClauses) (s : Src)
     (hl : lowerWhere env wv cl = some s) (he : whereElemental env wv cl = true) (σ : Store) :
-    execSrc env s σ = execSrc env (.whereC tag wv cl) σ := by
+    execSrc fuel env s σ = execSrc fuel env (.whereC tag wv cl) σ := by
   simp only [whereElemental, Bool.and_eq_true, Bool.not_eq_true'] at he
-  obtain ⟨hwvA, hel⟩ := he
-  have hwv : wv ∉ assignedArrs cl := by
-    intro h
-    have hc : (assignedArrs cl).contains wv = true := List.contains_iff_mem.mpr h
-    rw [hwvA] at hc
-    cases hc
-  have hAne : ∀ a ∈ assignedArrs cl, a ≠ wv := fun a ha h => hwv (h ▸ ha)
+  obtain ⟨⟨hwvA, hwv1A⟩, hel⟩ := he
+  have hwv : wv ∉ assignedArrs cl := not_mem_of_contains_false hwvA
+  have hwv1 : wv + 1 ∉ assignedArrs cl := not_mem_of_contains_false hwv1A
   cases cl with
   | nil => simp [lowerWhere] at hl
   | final body => simp [lowerWhere] at hl
   | masked m body rest =>
     simp only [lowerWhere] at hl
-    split at hl
-    · cases hl
-    · cases hfs : firstSec m with
-      | none => rw [hfs] at hl; cases hl
-      | some as =>
-        obtain ⟨a, sc⟩ := as
+    cases hfs : firstSec m with
+    | none => rw [hfs] at hl; cases hl
+    | some r =>
+      obtain ⟨a, s1, os2⟩ := r
+      have hm : elemA env (assignedArrs (.masked m body rest)) wv (whereRank2 env (.masked m body rest)) m = true := by
+        simp only [elemClauses, Bool.and_eq_true] at hel
+        exact hel.1.1
+      obtain ⟨hst1, hrk, hst2⟩ := firstSec_elem env _ wv _ m a s1 os2 hfs hm
+      cases os2 with
+      | none =>
+        -- rank 1
+        have hr2 : whereRank2 env (.masked m body rest) = false := by simpa using hrk
+        rw [hr2] at hel
         rw [hfs] at hl
-        simp only [Option.some.injEq] at hl
-        subst hl
-        -- the mask's first section has unit stride
-        have hst : secStride sc = 1 := by
-          simp only [elemClauses, Bool.and_eq_true] at hel
-          exact firstSec_stride env _ wv m a sc hfs hel.1.1
-        have hn : whereExtent env (.masked m body rest) = secExtent env a sc := by
-          simp only [whereExtent, hfs]
-        simp only [execSrc, run, eval, execWhere, hn]
-        rw [whereUpper_eval env a sc σ hst, runIters_eq_iters,
-          iters_rowFold (A := assignedArrs (.masked m body rest)) _ hel hAne]
-        apply Store.ext
-        funext ⟨x, i, j⟩
-        by_cases hloc : ((x, i, j) : Loc) = (wv, 0, 0)
-        · rw [hloc]
-          simp only [Store.set_same]
-          omega
-        · rw [Store.set_apply, if_neg hloc, Store.set_apply, if_neg hloc,
-            rowFold_spec _ hel (fun a ha => ha) hwv σ _ x i j hloc,
-            stdClauses_spec _ _ hel (fun a ha => ha) x i j]
-          simp
+        simp only at hl
+        split at hl
+        · cases hl
+        · simp only [Option.some.injEq] at hl
+          subst hl
+          have hsh : whereShape env (.masked m body rest) = some (secExtent env a s1, none) := by
+            simp only [whereShape, hfs]
+          have hn : ∀ τ, trip 1 (eval (whereUpper env a s1) τ) 1 = secExtent env a s1 := by
+            intro τ
+            unfold whereUpper secExtent
+            rw [whereUpperD_eval (env.get a).typed (isFull env a s1) (env.get a).lo (env.get a).hi s1 τ
+              (fun h => h) hst1, hst1]
+            rfl
+          simp only [execSrc, run, eval, execWhere, hsh, whereScratch, shapeCells, hn, runIters_eq_iters]
+          apply Store.ext
+          funext ⟨x, i, j⟩
+          by_cases hloc : ((x, i, j) : Loc) = (wv, 0, 0)
+          · rw [hloc]
+            simp only [Store.set_same]
+            omega
+          · rw [Store.set_apply, if_neg hloc, Store.set_apply, if_neg hloc,
+              iters_inv1 hel (fun a ha => ha) hwv hwv1 σ _ x i j hloc (by intro h; cases h),
+              stdClauses_spec (A := assignedArrs (.masked m body rest)) (wv := wv) (r2 := false) _
+                (fun _ c hc => by have := ((mem_cells _ 1 c).1 hc).2; omega) _ hel (fun a ha => ha) x i j]
+            have hiff : (x ∈ assignedArrs (.masked m body rest) ∧ inRng env false x i j ∧
+                D1 (secExtent env a s1) (cellOf env false x i j) = true) ↔
+                Sel env (assignedArrs (.masked m body rest)) false (cells (secExtent env a s1) 1) (fun _ => true) x i j := by
+              unfold Sel
+              simp only [mem_cells, D1, Bool.and_eq_true, beq_iff_eq, decide_eq_true_eq, and_true]
+              constructor
+              · rintro ⟨h1, h2, h3, h4⟩
+                exact ⟨h1, h2, h4, by omega⟩
+              · rintro ⟨h1, h2, h3, h4⟩
+                exact ⟨h1, h2, by omega, h3⟩
+            by_cases hc : Sel env (assignedArrs (.masked m body rest)) false (cells (secExtent env a s1) 1) (fun _ => true) x i j
+            · rw [if_pos hc, if_pos (hiff.2 hc)]
+            · rw [if_neg hc, if_neg (fun h => hc (hiff.1 h))]
+      | some s2 =>
+        -- rank 2
+        have hr2 : whereRank2 env (.masked m body rest) = true := by simpa using hrk
+        rw [hr2] at hel
+        rw [hfs] at hl
+        simp only at hl
+        split at hl
+        · cases hl
+        · simp only [Option.some.injEq] at hl
+          subst hl
+          have hsh : whereShape env (.masked m body rest) = some (secExtent env a s1, some (secExtent2 env a s2)) := by
+            simp only [whereShape, hfs]
+          have hn1 : ∀ τ, trip 1 (eval (whereUpperD (env.get a).typed (isFull env a s1 && isFull2 env a s2)
+              (env.get a).lo (env.get a).hi s1) τ) 1 = secExtent env a s1 := by
+            intro τ
+            unfold secExtent
+            rw [whereUpperD_eval _ _ _ _ s1 τ (fun h => by simp only [Bool.and_eq_true] at h; exact h.1) hst1, hst1]
+            rfl
+          have hn2 : ∀ τ, trip 1 (eval (whereUpperD (env.get a).typed (isFull env a s1 && isFull2 env a s2)
+              (env.get a).lo2 (env.get a).hi2 s2) τ) 1 = secExtent2 env a s2 := by
+            intro τ
+            unfold secExtent2
+            rw [whereUpperD_eval _ _ _ _ s2 τ (fun h => by simp only [Bool.and_eq_true] at h; exact h.2)
+              (hst2 s2 rfl), hst2 s2 rfl]
+            rfl
+          obtain ⟨hI, hW⟩ := iters_inv2_outer (fuel := fuel) hel (fun a ha => ha) hwv hwv1 σ (secExtent env a s1) _
+            hn1 (secExtent2 env a s2)
+          simp only [run, eval, hn1, runIters_eq_iters] at hI hW
+          simp only [execSrc, run, eval, hn1, hn2, runIters_eq_iters, execWhere, hsh, whereScratch, shapeCells]
+          have hne : ((wv + 1, 0, 0) : Loc) ≠ (wv, 0, 0) := by
+            intro h
+            have : wv + 1 = wv := congrArg Prod.fst h
+            omega
+          have hstd := fun x i j => stdClauses_spec (A := assignedArrs (.masked m body rest)) (wv := wv) (r2 := true)
+            (cells (secExtent env a s1) (secExtent2 env a s2)) (fun h => by cases h) (.masked m body rest) hel
+            (fun a ha => ha) x i j (fun _ => true) σ
+          apply Store.ext
+          funext ⟨x, i, j⟩
+          by_cases hloc1 : ((x, i, j) : Loc) = (wv + 1, 0, 0)
+          · rw [hloc1]
+            split
+            · rename_i h0
+              simp only [Store.set_same, h0]
+              omega
+            · simp only [Store.set_same]
+              omega
+          · rw [Store.set_apply, if_neg hloc1]
+            by_cases hloc : ((x, i, j) : Loc) = (wv, 0, 0)
+            · rw [hloc, hW]
+              split
+              · rw [Store.set_apply, if_neg hne.symm, hstd, if_neg (fun h => hwv h.1)]
+              · rw [Store.set_apply, if_neg hne.symm, Store.set_same]
+            · rw [hI x i j hloc (fun _ => hloc1)]
+              have hrhs : (if secExtent2 env a s2 = 0 then
+                    (stdClauses env (cells (secExtent env a s1) (secExtent2 env a s2)) (fun _ => true)
+                      (.masked m body rest) σ).set (wv + 1, 0, 0) 1
+                  else ((stdClauses env (cells (secExtent env a s1) (secExtent2 env a s2)) (fun _ => true)
+                      (.masked m body rest) σ).set (wv, 0, 0) ((secExtent env a s1 : Int) + 1)).set (wv + 1, 0, 0)
+                        ((secExtent2 env a s2 : Int) + 1)) (x, i, j)
+                  = (stdClauses env (cells (secExtent env a s1) (secExtent2 env a s2)) (fun _ => true)
+                      (.masked m body rest) σ) (x, i, j) := by
+                split
+                · rw [Store.set_apply, if_neg hloc1]
+                · rw [Store.set_apply, if_neg hloc1, Store.set_apply, if_neg hloc]
+              rw [hrhs, hstd]
+              have hiff : (x ∈ assignedArrs (.masked m body rest) ∧ inRng env true x i j ∧
+                  D2 (secExtent env a s1) (secExtent2 env a s2) 0 (cellOf env true x i j) = true) ↔
+                  Sel env (assignedArrs (.masked m body rest)) true
+                    (cells (secExtent env a s1) (secExtent2 env a s2)) (fun _ => true) x i j := by
+                unfold Sel
+                simp only [mem_cells, D2, Bool.and_eq_true, Bool.or_eq_true, beq_iff_eq, decide_eq_true_eq, and_true]
+                constructor
+                · rintro ⟨h1, h2, h3, h4⟩
+                  exact ⟨h1, h2, h3, by omega⟩
+                · rintro ⟨h1, h2, h3, h4⟩
+                  exact ⟨h1, h2, h3, Or.inl h4⟩
+              by_cases hc : Sel env (assignedArrs (.masked m body rest)) true
+                  (cells (secExtent env a s1) (secExtent2 env a s2)) (fun _ => true) x i j
+              · rw [if_pos hc, if_pos (hiff.2 hc)]
+              · rw [if_neg hc, if_neg (fun h => hc (hiff.1 h))]
 
 end C01
